@@ -93,6 +93,7 @@ def pSimCmd : P SimCmd := do
   | "deployReady" => do let k ← pKey2; pure (.op (.deployReady k))
   | "editMax" => do let k ← pKey2; let n ← P.int; pure (.op (.editMax k n))
   | "jobGone" => do let k ← pKey2; pure (.op (.jobGone k))
+  | "userDelete" => do let k ← pKey2; pure (.op (.userDelete k))
   | "quiesce-begin" => do let _ ← pKey2; pure (.op .noop)
   | "quiesce-end" => do let _ ← pKey2; pure (.op .noop)
   | _ => failure
